@@ -444,6 +444,12 @@ def run(argv):
     a = list(argv[1:])
     if a and a[0] == "--version":
         return 0, "xmlsec1 1.2.37 (openssl)\n", ""
+    if a and a[0] == "--list-transforms":
+        # the transforms this stand-in implements (format of xmlsec1: header line, then a quoted list)
+        names = ["enveloped-signature", "exc-c14n", "exc-c14n-with-comments", "c14n", "c14n-with-comments",
+                 "sha1", "sha224", "sha256", "sha384", "sha512",
+                 "rsa-sha1", "rsa-sha224", "rsa-sha256", "rsa-sha384", "rsa-sha512"]
+        return 0, "Registered transform klasses:\n" + ",".join('"%s"' % n for n in names) + "\n", ""
     try:
         mode, opts, idattrs, pos = parse_args(a)
         if mode == "--sign":
